@@ -152,8 +152,13 @@ def run_case(ctx, case):
         if ev < 0.10 and len(recs) < 6:
             add_recorder()
         elif ev < 0.18 and recs:
-            ob = rng.choice(recs)
+            # any subscriber may leave: recorders, the history observer, built-in observers
+            pool = recs + [x for x in subs if not isinstance(x, Recorder) and rng.random() < 0.5]
+            ob = rng.choice(pool)
             d.unsubscribe(ob); subs.remove(ob)
+            if ob is hist:
+                hist, model_hist = None, None
+                ctx.count("history_observer_unsubscribed")
             script.append(("unsub", labels[id(ob)])); ctx.count("unsubscribes"); disturb += 1
         elif ev < 0.24:
             # built-in observers mixed in (subscribed silently by their constructors)
